@@ -313,3 +313,25 @@ def caller_object_mutations(cfg, fn_node: ast.AST, param: str) -> list[ast.AST]:
                     if isinstance(part, ast.AugAssign) and isinstance(t, ast.Name) and t.id == param:
                         out.append(part)
     return out
+
+
+_FLIP = {ast.Is: ast.IsNot, ast.IsNot: ast.Is, ast.Eq: ast.NotEq, ast.NotEq: ast.Eq, ast.In: ast.NotIn, ast.NotIn: ast.In,
+         ast.Lt: ast.GtE, ast.GtE: ast.Lt, ast.Gt: ast.LtE, ast.LtE: ast.Gt}
+
+
+def nnf(test: ast.AST, neg: bool = False) -> str:
+    """Negation normal form of a condition as text: `not` pushed inwards (De Morgan), comparison operators flipped."""
+    if isinstance(test, ast.UnaryOp) and isinstance(test.op, ast.Not):
+        return nnf(test.operand, not neg)
+    if isinstance(test, ast.BoolOp):
+        is_and = isinstance(test.op, ast.And) != neg
+        return "(" + (" and " if is_and else " or ").join(nnf(v, neg) for v in test.values) + ")"
+    if isinstance(test, ast.Compare) and len(test.ops) == 1:
+        op = test.ops[0]
+        if neg and type(op) in _FLIP:
+            op = _FLIP[type(op)]()
+            neg = False
+        t = norm(ast.Compare(left=test.left, ops=[op], comparators=test.comparators))
+        return f"not ({t})" if neg else t
+    t = norm(test)
+    return f"not {t}" if neg else t
